@@ -176,5 +176,5 @@ def c19_case(draw):
 
 def campaigns(tier: str) -> List[Campaign]:
     return [Campaign("save_restore", c19_case(), check, quick=640, thorough=9600, quick_shards=8,
-                     required_classes={"cycles=1": 0.1, "cycles=2": 0.1, "cycles=3": 0.05, "reweighted": 0.1, "several_equally_heavy_paths": 0.018},
+                     required_classes={"saved_again_into_the_same_directory": 0.2, "saved_again_into_the_same_directory_after_a_change": 0.08, "cycles=1": 0.1, "cycles=2": 0.1, "cycles=3": 0.05, "reweighted": 0.1, "several_equally_heavy_paths": 0.018},
                      sample_view=lambda c: {**view(c), "history": c["history"]})]
